@@ -57,6 +57,7 @@ import re
 import signal
 
 from ..par import Result, deadline_passed, alarm, CaseTimeout
+from .. import dyn
 
 ID = "C14"
 LEVEL = "exploration"
@@ -929,6 +930,51 @@ def _part_cols(sh, tier, res):
     res.count("cols_cases", n)
 
 
+# ------------------------------------------------------------------ part "words": paragraphs that wrap to several lines
+# Every sequence of <=N words, each 1 or WLONG characters long (a wide character in one position), printed with
+# markup off at the widths below with every justify method and overflow method: wrapped paragraphs of 1..N lines
+# with every pattern of word counts per line (state carried from one wrapped line to the next shows here).
+WORDS_N = {"quick": 12, "thorough": 15}
+WORDS_LONG = 9
+WORDS_WIDTHS = [20, 11]
+WORDS_JUSTIFY = ["full", "center", "right", "left", None]
+WORDS_OVERFLOW = [None, "ellipsis", "crop"]
+
+
+def _words_text(bits):
+    return " ".join(("w" if b == 0 else "abcdefg\u3042") if i % 3 else ("x" if b == 0 else "abcdefghi")
+                    for i, b in enumerate(bits))
+
+
+def check_words(bits, res):
+    s = _words_text(bits)
+    for w in WORDS_WIDTHS:
+        con = console(w)
+        for j in WORDS_JUSTIFY:
+            for ov in (WORDS_OVERFLOW if j in ("full", None) else WORDS_OVERFLOW[:1]):
+                case = {"part": "words", "bits": list(bits), "w": w, "justify": j, "overflow": ov}
+                st, _ = call(res, "print.words", lambda: con.print(s, markup=False, justify=dyn(j), overflow=dyn(ov)), (), case,
+                             "Console(width=%d).print(%r, markup=False, justify=%r, overflow=%r)" % (w, s, j, ov))
+                res.sig(("words", min(len(bits), 4), sum(bits) > 1, w, j, ov, st))
+
+
+def _part_words(sh, tier, res):
+    n = 0
+    with _Timer():
+        for L in range(1, WORDS_N[tier] + 1):
+            for idx, bits in enumerate(itertools.product((0, 1), repeat=L)):
+                if idx % sh["n"] != sh["i"]:
+                    continue
+                if n % 16 == 0 and (deadline_passed() or res.counters.get("hangs_confirmed", 0) >= MAX_HANGS):
+                    res.capped = True
+                    res.count("words_cases", n)
+                    return
+                check_words(bits, res)
+                n += 1
+    res.count("words_cases", n)
+    res.sample({"part": "words", "bits": [0] * 10 + [1, 1], "w": 20, "justify": "full", "overflow": None}, limit=1)
+
+
 # ------------------------------------------------------------------ part "again": the same objects rendered repeatedly
 # History dimension: ONE object per tree is rendered, measured, rendered again at the same width, at a
 # narrower width and at the first width again; nothing may raise. Leaves are Texts with a styled span x
@@ -1012,6 +1058,7 @@ def plan(tier, seed):
     shards += [{"part": "tree", "i": i, "n": nt} for i in range(nt)]
     shards += [{"part": "cols", "i": i, "n": 16} for i in range(16)]
     shards += [{"part": "again", "i": i, "n": 16} for i in range(16)]
+    shards += [{"part": "words", "i": i, "n": 16} for i in range(16)]
     ns = 16 if tier == "quick" else 64
     shards += [{"part": "style", "i": i, "n": ns} for i in range(ns)]
     for fam in _families(tier):
@@ -1033,6 +1080,8 @@ def run_shard(sh, tier, seed):
         _part_cols(sh, tier, res)
     elif sh["part"] == "again":
         _part_again(sh, tier, res)
+    elif sh["part"] == "words":
+        _part_words(sh, tier, res)
     else:
         _part_tree(sh, tier, res)
     dt = time.process_time() - t0
@@ -1101,7 +1150,8 @@ def describe(tier, seed, res):
         "coverage": {"states": 0, "transitions": 0,
                      "trees": c.get("trees", 0), "widths_per_tree": len(WIDTHS),
                      "style_cases": c.get("style_cases", 0), "console_kinds": CONSOLE_KINDS,
-                     "cols_cases": c.get("cols_cases", 0), "again_trees": c.get("again_trees", 0),
+                     "cols_cases": c.get("cols_cases", 0), "words_paragraphs": c.get("words_cases", 0),
+                     "words_rule": "every sequence of <=%d words of 1 or 9 cells x widths %r x justify %r x overflow %r, Console.print(markup=False)" % (WORDS_N[tier], WORDS_WIDTHS, WORDS_JUSTIFY, WORDS_OVERFLOW), "again_trees": c.get("again_trees", 0),
                      "again_widths": AGAIN_WIDTHS,
                      "token_length_bound": L},
     }
@@ -1117,6 +1167,8 @@ def replay(case):
                 check_cols(case["opts"], case["mode"], w, res)
         elif case.get("part") == "again":
             check_again(case["chain"], res)
+        elif case.get("part") == "words":
+            check_words(tuple(case["bits"]), res)
         elif case.get("part") == "style":
             kinds = CONSOLE_KINDS if case.get("kind") in (None, "all") else [case["kind"]]
             ws = _style_widths("thorough") if case.get("w") in (None, "all") else [case["w"]]
